@@ -5,13 +5,16 @@
 //!   pair <hex text> <hex binary>              -> <result> | <result>
 //!   write W H S N l t r b <pixhex N pixels>   -> w:<hex written> p:<result of parsing it back>
 //!   writem W H S N l t r b <pixhex N pixels>  -> same, through MutSlice2::new + slice_mut (impl AsSlice2 for MutSlice2)
+//!   save / savem / saveb …                     -> as write / writem / writeb, through save_ppm + load_pnm on a temp file
+//!   loaderr missing|dir                        -> err:* (load_pnm must not panic)
+//!   readshort K <hex> | readfail P <hex>       -> read_pnm from a reader with reads of <= K bytes / failing after P bytes
 //!   writeb W H <pixhex W*H pixels>            -> w:<hex> p:<result>         (owned Buf2, by value and by reference)
 //!   rsnum BITS <hex>                          -> ok:<v> | empty | invalid   (str::parse::<uBITS> of the Latin-1 string)
 //!   rsws                                      -> 256 x 0/1                   (u8::is_ascii_whitespace)
 //!   rsdec N                                   -> hex of format!("{}", N as u32)
 use re::math::{rgb, Color3};
 use re::util::buf::{Buf2, MutSlice2, Slice2};
-use re::util::pnm::{parse_pnm, read_pnm, write_ppm, Error};
+use re::util::pnm::{load_pnm, parse_pnm, read_pnm, save_ppm, write_ppm, Error};
 
 use vharness::util::*;
 
@@ -25,6 +28,8 @@ fn show(res: Result<Buf2<Color3>, Error>) -> String {
             // dims() and the length of the backing vector are reported separately on purpose
             format!("ok {} {} {}", buf.width(), buf.height(), hex_bytes(&px))
         }
+        Err(e) if format!("{e}").is_empty() => panic!("harness: empty Display for {e:?}"),
+        Err(Error::Io(_)) => "err:io".into(),
         Err(Error::UnexpectedEnd) => "err:end".into(),
         Err(Error::InvalidNumber) => "err:num".into(),
         Err(Error::Unsupported(m)) => format!("err:unsup:{}", hex_bytes(&m)),
@@ -34,6 +39,52 @@ fn show(res: Result<Buf2<Color3>, Error>) -> String {
 
 fn pixels(hex: &str) -> Vec<Color3> {
     parse_hex_bytes(hex).chunks(3).map(|c| rgb(c[0], c[1], c[2])).collect()
+}
+
+/// A fresh path under the system temp dir, unique per process and call.
+fn temp_path(tag: &str) -> std::path::PathBuf {
+    use std::sync::atomic::{AtomicU64, Ordering};
+    static N: AtomicU64 = AtomicU64::new(0);
+    let n = N.fetch_add(1, Ordering::Relaxed);
+    std::env::temp_dir().join(format!("vharness_c13_{}_{n}_{tag}", std::process::id()))
+}
+
+/// save_ppm to a temp file, read the raw bytes back, load_pnm it, remove the file.
+/// Prints the same two tokens as `write` (file bytes, decoded image).
+fn via_file(save: impl FnOnce(&std::path::Path) -> std::io::Result<()>) -> String {
+    let path = temp_path("img.ppm");
+    let res = (|| -> Result<String, String> {
+        save(&path).map_err(|e| format!("save_ppm failed: {e}"))?;
+        let bytes = std::fs::read(&path).map_err(|e| format!("reading back failed: {e}"))?;
+        Ok(format!("w:{} p:{}", hex_bytes(&bytes), show(load_pnm(&path))))
+    })();
+    let _ = std::fs::remove_file(&path);
+    match res {
+        Ok(s) => s,
+        Err(e) => panic!("harness: {e}"),
+    }
+}
+
+/// A reader that hands out at most `chunk` bytes per call and, after `fail_at` bytes, an io::Error.
+struct Choppy<'a> {
+    data: &'a [u8],
+    pos: usize,
+    chunk: usize,
+    fail_at: Option<usize>,
+}
+impl std::io::Read for Choppy<'_> {
+    fn read(&mut self, buf: &mut [u8]) -> std::io::Result<usize> {
+        if let Some(f) = self.fail_at {
+            if self.pos >= f {
+                return Err(std::io::Error::new(std::io::ErrorKind::Other, "harness: injected failure"));
+            }
+        }
+        let limit = self.fail_at.unwrap_or(self.data.len()).min(self.data.len());
+        let n = buf.len().min(self.chunk).min(limit - self.pos);
+        buf[..n].copy_from_slice(&self.data[self.pos..self.pos + n]);
+        self.pos += n;
+        Ok(n)
+    }
 }
 
 pub fn run(t: &[&str]) -> String {
@@ -71,6 +122,50 @@ pub fn run(t: &[&str]) -> String {
             let mut out = vec![];
             write_ppm(&mut out, sub).unwrap();
             format!("w:{} p:{}", hex_bytes(&out), show(parse_pnm(out.iter().copied())))
+        }
+        "save" | "savem" => {
+            // the file front doors: save_ppm + load_pnm, on a shared / mutable strided sub-view
+            let n: Vec<u32> = t[1..9].iter().map(|s| s.parse().unwrap()).collect();
+            let (w, h, s, _len, l, tp, r, b) = (n[0], n[1], n[2], n[3], n[4], n[5], n[6], n[7]);
+            let mut root = pixels(t[9]);
+            assert_eq!(root.len() as u32, n[3], "harness: pixel count");
+            if t[0] == "save" {
+                let view = Slice2::new((w, h), s, &root);
+                let sub = view.slice((l..r, tp..b));
+                via_file(|p| save_ppm(p, sub))
+            } else {
+                let mut view = MutSlice2::new((w, h), s, &mut root);
+                let sub = view.slice_mut((l..r, tp..b));
+                via_file(|p| save_ppm(p, sub))
+            }
+        }
+        "saveb" => {
+            let (w, h): (u32, u32) = (t[1].parse().unwrap(), t[2].parse().unwrap());
+            let buf = Buf2::new_from((w, h), pixels(t[3]));
+            let a = via_file(|p| save_ppm(p, &buf));
+            let b = via_file(|p| save_ppm(p, buf));
+            assert_eq!(a, b, "harness: by-value and by-reference files differ");
+            a
+        }
+        "loaderr" => {
+            // load_pnm of a path that does not exist / of a directory: an Err, never a panic
+            let path = match t[1] {
+                "missing" => temp_path("does_not_exist.ppm"),
+                "dir" => std::env::temp_dir(),
+                _ => panic!("harness: loaderr kind"),
+            };
+            show(load_pnm(&path))
+        }
+        "readshort" | "readfail" => {
+            // read_pnm from a reader with short reads; `readfail` also fails with an io::Error after P bytes
+            let k: usize = t[1].parse().unwrap();
+            let bytes = parse_hex_bytes(t[2]);
+            let rd = if t[0] == "readshort" {
+                Choppy { data: &bytes, pos: 0, chunk: k.max(1), fail_at: None }
+            } else {
+                Choppy { data: &bytes, pos: 0, chunk: 1 + k % 7, fail_at: Some(k) }
+            };
+            show(read_pnm(rd))
         }
         "writeb" => {
             let (w, h): (u32, u32) = (t[1].parse().unwrap(), t[2].parse().unwrap());
@@ -374,8 +469,26 @@ pub fn gen(rng: &mut Rng, tier: Tier, out: &mut Vec<String>) {
         let px = rand_pixels(rng, n as usize);
         out.push(format!("write {w} {h} {s} {n} {l} {t} {r} {b} {}", px_hex(&px)));
         out.push(format!("writem {w} {h} {s} {n} {l} {t} {r} {b} {}", px_hex(&px)));
+        // the file front doors (save_ppm + load_pnm on a temp file): a fifth of the views
+        if rng.chance(1, 5) {
+            let op = if rng.bool() { "save" } else { "savem" };
+            out.push(format!("{op} {w} {h} {s} {n} {l} {t} {r} {b} {}", px_hex(&px)));
+        }
         let px = rand_pixels(rng, (w * h) as usize);
         out.push(format!("writeb {w} {h} {}", px_hex(&px)));
+        if rng.chance(1, 5) {
+            out.push(format!("saveb {w} {h} {}", px_hex(&px)));
+        }
+    }
+    // ---- load_pnm error paths; read_pnm from readers with short reads / an io::Error mid-way
+    out.push("loaderr missing".into());
+    out.push("loaderr dir".into());
+    for _ in 0..150 * k {
+        let (w, h) = (rng.below(5), rng.below(5));
+        let px = rand_pixels(rng, (w * h) as usize);
+        let file = if rng.chance(1, 4) { fuzz_header(rng) } else { printer(w, h, &px) };
+        out.push(format!("readshort {} {}", 1 + rng.below(7), hex_bytes(&file)));
+        out.push(format!("readfail {} {}", rng.below(file.len() as u64 + 2), hex_bytes(&file)));
     }
     // ---- text and binary encodings of the same image under random valid layouts
     for _ in 0..500 * k {
